@@ -131,6 +131,15 @@ CHECKS = {
              "callable part, exploration for histories.",
         note="Trusted: recorded call log; Klong lists are numpy arrays (bare Python lists are programs to klongpy and are not used as data).",
         design="3/C09"),
+    "C01": dict(
+        category="exploration",
+        technique="exhaustive enumeration of verbs x a closed operand universe plus Hypothesis recursive operands against an independent pure-Python reference model of the verb semantics (self-validated on the official suite)",
+        text="Every monad/dyad is applied to every operand (pair) of a ~65-value universe (exhaustive) and to generated recursive "
+             "operands; where the reference model (written from the verb docstrings, reproducing all single-verb cases of the official "
+             "suite) defines a value, klongpy must yield it with the same structure, elements and integer/real/character/string kind "
+             "and must not raise. Systemic divergences are listed as open findings by clause/operand-trait keys.",
+        note="Trusted: vk/refmodel.py (declines where reference and suite are silent); canonicalisation; Grade judged by a validity predicate.",
+        design="3/C01"),
 }
 
 NOT_APPLICABLE = {
